@@ -15,6 +15,7 @@ EXPLANATION = (
 DECLINED = ["'read the value that was set' (contents of the memcpy'd buffer)"]
 ASSUMPTIONS = ["C05.R4 / C04.R3 for the wait list", "user callbacks are opaque"]
 RULES_DOC = dict(common.SHARED_DOC)
+RULES_DOC["X4"] = common.X4_DOC
 RULES_DOC.update({
     "R1": "eventual_set: copy -> ready=TRUE -> broadcast inside one lock section; already-ready arm mutates nothing and returns ABT_ERR_EVENTUAL",
     "R2": "eventual wait/test/reset access `ready` only under the lock; not-ready wait enqueues with the eventual's own list and lock",
@@ -128,7 +129,10 @@ def rule_R2(P, rep):
         why = []
         tests = [i for i, t in enumerate(toks) if t[0] == "if" and t[1] == "ready"]
         rd = idx(toks, lambda t: t[0] == "rd" and t[1] == READY)
-        if len(tests) != 1 or not rd or any(not held_at(toks, EL, i) for i in rd):
+        # one read under the lock; a helper's flattened result / a temporary may be tested again, which is the
+        # same decision as long as every test of that one value goes the same way
+        if not tests or len(set(toks[i][2] for i in tests)) != 1 or len(rd) != 1 or any(not held_at(toks, EL, i) for i in rd) or \
+                rd[0] > tests[0]:
             why.append("`ready` must be tested exactly once under the lock")
         else:
             notready = toks[tests[0]][2] is False
@@ -261,7 +265,10 @@ def rule_R4(P, rep):
         why = []
         tests = [i for i, t in enumerate(toks) if t[0] == "if" and (t[1] == "in-range" or t[1].startswith("counter:"))]
         rd = idx(toks, lambda t: t[0] == "rd" and t[1] == "ABTI_future::counter")
-        if len(tests) != 1 or toks[tests[0]][1] != "in-range" or not rd or any(not held_at(toks, FL, i) for i in rd):
+        # one read of the counter under the lock; re-tests of a local holding that one comparison (a helper's
+        # flattened result) are the same decision as long as they all go the same way
+        if not tests or any(toks[i][1] != "in-range" for i in tests) or len(set(toks[i][2] for i in tests)) != 1 or \
+                len(rd) != 1 or any(not held_at(toks, FL, i) for i in rd) or rd[0] > tests[0]:
             why.append("counter must be compared with num_compartments once under the lock")
         else:
             xf = idx(toks, is_xfer(FL))
@@ -295,6 +302,8 @@ def rule_R4(P, rep):
 
 
 def run(P, rep, tier):
+    if tier == "thorough":
+        common.rule_X4(P, rep)
     common.run_shared(P, rep)
     rule_R1(P, rep)
     rule_R2(P, rep)
